@@ -87,7 +87,8 @@ def showOut : Out → String
       let size := if e.marker then 0 else e.size
       let hash := if e.marker then "-" else toHex e.hash
       s!"{toHex e.key}:{optNat e.vid}:{kind}:{latest}:{size}:{hash}")
-    s!"versions trunc={if l.truncated then 1 else 0} E={es} P={showKeys l.prefixes}"
+    let next := if l.nextKey.isEmpty && l.nextVer.isNone then "-" else s!"{toHex l.nextKey}:{optNat l.nextVer}"
+    s!"versions trunc={if l.truncated then 1 else 0} next={next} E={es} P={showKeys l.prefixes}"
   | .versioning s => s!"versioning {showVStatus s}"
   | .copied hash vid => s!"copied {toHex hash} srcvid={optNat vid}"
 
